@@ -39,7 +39,7 @@ def to_engine(yp, t, varmap):
     if k == 'a':
         return yp.atom(t[1])
     if k == 'c':
-        return t[1]
+        return fresh_constant(t[1])
     if k == 'v':
         v = varmap.get(t[1])
         if v is None:
@@ -51,6 +51,18 @@ def to_engine(yp, t, varmap):
             return yp.listpair(args[0], args[1])
         return yp.functor(t[1], args)
     raise ValueError(t)
+
+
+def fresh_constant(v):
+    """an equal but (where Python allows) distinct object, so that comparing constants by
+    identity instead of equality is visible"""
+    if isinstance(v, bool):
+        return v
+    if isinstance(v, int):
+        return int(str(v))
+    if isinstance(v, str):
+        return ''.join(list(v)) if len(v) > 1 else v
+    return v
 
 
 def observe(terms):
